@@ -125,8 +125,8 @@ Proof. induction ss as [|s t IH]; intros r r' H q; simpl; [apply H|]. apply IH, 
 
 Lemma files_rmdir f d : files (fs_of (exec (SRmdirIfEmpty d) f)) = files f.
 Proof.
-  unfold fs_of; simpl. destruct (dir_exists f d); [|reflexivity].
-  destruct (dir_empty f d); [|reflexivity]. destruct d; reflexivity.
+  unfold fs_of; simpl. destruct d as [x|]; [|reflexivity]. destruct (mems x (dirs f)); [|reflexivity].
+  destruct (dir_empty f (Some x)); reflexivity.
 Qed.
 
 Lemma read_exec s f q : read (fs_of (exec s f)) q = rstep s (read f) q.
@@ -289,17 +289,18 @@ Definition aattack (fb : bool) (c : cls) (v : Z) (k : kind) (n g : nat) (fl : fl
     ++ (if fb then [AUnlink (fslot (other fl))] else [])
   else [ACreate (tslot fl); AWrite (tslot fl) (Partial g) g; AClose (tslot fl); AUnlink (tslot fl)].
 
-Definition asave_steps (fb : bool) (c : cls) (v : Z) (k : kind) (n g : nat) : list astep :=
+(* sub = the location's directory is a sub-directory (for the cwd there is no clean-up step) *)
+Definition asave_steps (sub : bool) (fb : bool) (c : cls) (v : Z) (k : kind) (n g : nat) : list astep :=
   [AMkdir] ++ aattack fb c v k n g Pk
   ++ (if pickles k Pk then [] else if fb then aattack fb c v k n g Cp else [])
-  ++ [ARmdir].
+  ++ (if sub then [ARmdir] else []).
 
 Lemma save_steps_conc l fb c v k n g :
-  save_steps l fb c v k n g = map (conc l) (asave_steps fb c v k n g).
-Proof. destruct k, fb; reflexivity. Qed.
+  save_steps l fb c v k n g = map (conc l) (asave_steps (isSome (fst l)) fb c v k n g).
+Proof. destruct l as [[d|] s]; destruct k, fb; reflexivity. Qed.
 
 Lemma save_steps_length l fb c v k n g : List.length (save_steps l fb c v k n g) <= 11.
-Proof. destruct k, fb; simpl; lia. Qed.
+Proof. destruct l as [[d|] s]; destruct k, fb; simpl; lia. Qed.
 
 (* ---- 3. the refinement between files and the specification ------------------------------------- *)
 Definition good (x : option content) : Prop := forall k, x <> Some (Partial k).
@@ -325,9 +326,9 @@ Ltac rel_case :=
          | H : ?w FC = _ |- _ => rewrite H
          end; cbn; auto with store.
 
-Lemma asave_rel fb c v kd n g i k (w : aview) x :
+Lemma asave_rel sub fb c v kd n g i k (w : aview) x :
   rel w x ->
-  rel (acrash (asave_steps fb c v kd n g) i k w)
+  rel (acrash (asave_steps sub fb c v kd n g) i k w)
       (if committed kd fb (is_pk x) (Some (i, k)) then Some (save_flavour kd, c, v) else x).
 Proof.
   intros H.
@@ -336,9 +337,9 @@ Proof.
     assert (G : w FC = None \/ exists c' v', w FC = Some (Full c' v')).
     { destruct (w FC) as [[c' v'|k']|]; [right; eauto|exfalso; exact (H2 k' eq_refl)|left; reflexivity]. }
     clear H2. destruct G as [H2|(c' & v' & H2)];
-    destruct kd, fb; do 12 (destruct i as [|i]; [rel_case|]); rel_case.
-  - destruct kd, fb; do 12 (destruct i as [|i]; [rel_case|]); rel_case.
-  - destruct kd, fb; do 12 (destruct i as [|i]; [rel_case|]); rel_case.
+    destruct sub, kd, fb; do 12 (destruct i as [|i]; [rel_case|]); rel_case.
+  - destruct sub, kd, fb; do 12 (destruct i as [|i]; [rel_case|]); rel_case.
+  - destruct sub, kd, fb; do 12 (destruct i as [|i]; [rel_case|]); rel_case.
 Qed.
 
 Definition view (f : fs) (l : loc) : aview := fun sl => read f (spath l sl).
@@ -403,7 +404,7 @@ Proof. destruct crash as [[i j]|]; [reflexivity|]. destruct kd, fb, sh; reflexiv
 
 Lemma view_save_same l fb c v kd n g i k f sl :
   view (fst (crash_at (save_steps l fb c v kd n g) i k f)) l sl
-  = acrash (asave_steps fb c v kd n g) i k (view f l) sl.
+  = acrash (asave_steps (isSome (fst l)) fb c v kd n g) i k (view f l) sl.
 Proof.
   unfold view. rewrite read_crash_at, save_steps_conc. apply rcrash_conc. reflexivity.
 Qed.
@@ -423,15 +424,16 @@ Proof.
 Qed.
 
 (* delete *)
-Definition adelete_steps (has : bool) : list astep :=
-  (if has then [AUnlink FP; AUnlink FC] else []) ++ [ARmdir].
-Lemma delete_steps_conc f l : delete_steps f l = map (conc l) (adelete_steps (has_saved f l)).
-Proof. unfold delete_steps, adelete_steps. destruct (has_saved f l); reflexivity. Qed.
+Definition adelete_steps (sub : bool) : list astep :=
+  [AUnlink FP; AUnlink TP; AUnlink FC; AUnlink TC] ++ (if sub then [ARmdir] else []).
+Lemma delete_steps_conc l : delete_steps l = map (conc l) (adelete_steps (isSome (fst l))).
+Proof. destruct l as [[d|] s]; reflexivity. Qed.
 
-Lemma view_delete_same l f sl :
-  view (fs_of (delete l f)) l sl = arsteps (adelete_steps (has_saved f l)) (view f l) sl.
+Lemma view_delete_same l f sl : view (fs_of (delete l f)) l sl = None.
 Proof.
-  unfold view, delete. rewrite read_run_steps, delete_steps_conc. apply rsteps_conc. reflexivity.
+  unfold view, delete. rewrite read_run_steps, delete_steps_conc.
+  rewrite (rsteps_conc l _ (read f) (fun sl => read f (spath l sl))) by reflexivity.
+  destruct (isSome (fst l)), sl; reflexivity.
 Qed.
 
 Lemma view_delete_other l l' f sl : loc_eqb l' l = false -> view (fs_of (delete l f)) l' sl = view f l' sl.
@@ -445,14 +447,8 @@ Proof.
   unfold delete. rewrite read_run_steps, delete_steps_conc. apply rsteps_frame. intros sl. apply spath_user.
 Qed.
 
-Lemma rel_delete f l x : rel (view f l) x -> rel (view (fs_of (delete l f)) l) None.
-Proof.
-  intros H. apply (rel_ext (arsteps (adelete_steps (has_saved f l)) (view f l))).
-  - intros sl; apply view_delete_same.
-  - pose proof (rel_has f l x H) as Hh. unfold adelete_steps.
-    destruct (has_saved f l) eqn:E; simpl; [split; reflexivity|].
-    destruct x as [[[[|] c] v]|]; simpl in Hh; try discriminate. exact H.
-Qed.
+Lemma rel_delete f l : rel (view (fs_of (delete l f)) l) None.
+Proof. split; apply view_delete_same. Qed.
 
 Lemma view_touch d s f l sl : view (touch d s f) l sl = view f l sl.
 Proof.
@@ -476,7 +472,7 @@ Proof. unfold vset. intros ->. reflexivity. Qed.
 Lemma inv_delete f r l : inv f r -> inv (fs_of (delete l f)) (vset l None r).
 Proof.
   intros H l'. destruct (loc_eqb l' l) eqn:E.
-  - apply loc_eqb_eq in E; subst l'. rewrite vset_same. eapply rel_delete, H.
+  - apply loc_eqb_eq in E; subst l'. rewrite vset_same. apply rel_delete.
   - rewrite vset_other by exact E. eapply rel_ext; [|apply H]. intros sl. apply view_delete_other, E.
 Qed.
 
@@ -486,7 +482,7 @@ Proof.
   - rewrite save_fs, committed_crash. intros l'. destruct (loc_eqb l' l) eqn:E.
     + apply loc_eqb_eq in E; subst l'.
       eapply rel_ext; [intros sl; apply view_save_same|].
-      pose proof (asave_rel fb c v kd n g (crash_i crash) (crash_k crash) _ _ (H l)) as A.
+      pose proof (asave_rel (isSome (fst l)) fb c v kd n g (crash_i crash) (crash_k crash) _ _ (H l)) as A.
       destruct (committed kd fb (is_pk (r l)) (Some (crash_i crash, crash_k crash))).
       * rewrite vset_same. exact A.
       * exact A.
@@ -555,13 +551,13 @@ Ltac same_case :=
   unfold acrash; cbn;
   repeat match goal with |- context [Nat.ltb ?a ?b] => destruct (Nat.ltb a b) end; cbn; auto.
 
-Lemma asave_untouched fb c v kd n g i k (w : aview) :
+Lemma asave_untouched sub fb c v kd n g i k (w : aview) :
   save_ok kd fb = false \/ i < rename_idx kd ->
-  acrash (asave_steps fb c v kd n g) i k w FP = w FP /\ acrash (asave_steps fb c v kd n g) i k w FC = w FC.
+  acrash (asave_steps sub fb c v kd n g) i k w FP = w FP /\ acrash (asave_steps sub fb c v kd n g) i k w FC = w FC.
 Proof.
   intros [H|H].
-  - destruct kd, fb; try discriminate H; do 12 (destruct i as [|i]; [same_case|]); same_case.
-  - destruct kd, fb; simpl in H; do 9 (destruct i as [|i]; [try (exfalso; lia); same_case|]); exfalso; lia.
+  - destruct sub, kd, fb; try discriminate H; do 12 (destruct i as [|i]; [same_case|]); same_case.
+  - destruct sub, kd, fb; simpl in H; do 9 (destruct i as [|i]; [try (exfalso; lia); same_case|]); exfalso; lia.
 Qed.
 
 Lemma commit_le_rename kd sh : rename_idx kd <= commit_idx kd sh.
@@ -594,7 +590,7 @@ Proof.
   - intros H1 H2. apply Nat.leb_le in H2. rewrite H1, H2. simpl. rewrite vset_same. reflexivity.
   - intros H fl. rewrite run_snoc. simpl. rewrite save_fs. fold i.
     pose proof (view_save_same l fb c v kd n g i (crash_k crash) (run ops)) as E. unfold view in E.
-    destruct (asave_untouched fb c v kd n g i (crash_k crash) (fun sl => read (run ops) (spath l sl)) H) as [A B].
+    destruct (asave_untouched (isSome (fst l)) fb c v kd n g i (crash_k crash) (fun sl => read (run ops) (spath l sl)) H) as [A B].
     destruct fl.
     + change (fin l Pk) with (spath l FP). rewrite E. exact A.
     + change (fin l Cp) with (spath l FC). rewrite E. exact B.
